@@ -16,6 +16,7 @@ From TI Require Import model.RArgs proofs.RArgsBasics proofs.RArgsProofs proofs.
      proofs.RArgsLaws proofs.RArgsTags.
 From TI Require Import model.RArgsVal proofs.RArgsValProofs.
 From TI Require Import model.RArgsSub proofs.RArgsSubProofs.
+From TI Require model.RArgsIntern proofs.RArgsInternProofs.
 
 (** the invariant holds initially *)
 Theorem C16_initial_heap_wf : forall F, wf_forest F -> WF F heap0.
@@ -495,3 +496,70 @@ Theorem C16_update_through_the_constructor_forced_field_refuted :
     spec_nupdate (length dfl) f kw = NOk f2 /\ f1 <> f2.
 Proof. exact update_via_ctor_force_refuted. Qed.
 Print Assumptions C16_update_through_the_constructor_forced_field_refuted.
+
+(** ** Round 7 (second part): requests for the shared default set of one class may INTERLEAVE
+    (model/RArgsIntern.v: nothing is locked; a thread may be pre-empted between the look-up in
+    [__new__], the "has been initialised" test in [__init__], the building of the namespaces,
+    the data-init and the publication in [_interned]).  Every natural number names a thread,
+    a schedule is any list of thread names; [dflt] is what the default set of the class
+    holds (any type).  [code_proto]: test "the cell holds THIS object", publication last. *)
+
+(** for EVERY schedule and any number of threads: the object in [_interned] and every
+    object a request returned is complete and holds the default namespaces *)
+Theorem C16_interned_default_complete_under_every_interleaving :
+  forall (D : Type) (dflt : D) (sched : list nat),
+    let s := RArgsIntern.run dflt RArgsIntern.code_proto sched in
+    (forall o, RArgsIntern.interned s = Some o -> RArgsIntern.heap s o = Some dflt) /\
+    (forall t o, RArgsIntern.result_of s t = Some o -> RArgsIntern.heap s o = Some dflt).
+Proof. exact RArgsInternProofs.interned_default_complete. Qed.
+Print Assumptions C16_interned_default_complete_under_every_interleaving.
+
+(** value semantics: any two requests get sets that hold the same namespaces ... *)
+Theorem C16_interned_default_requests_get_equal_values :
+  forall (D : Type) (dflt : D) sched t1 t2 o1 o2,
+    let s := RArgsIntern.run dflt RArgsIntern.code_proto sched in
+    RArgsIntern.result_of s t1 = Some o1 -> RArgsIntern.result_of s t2 = Some o2 ->
+    RArgsIntern.heap s o1 = RArgsIntern.heap s o2 /\ RArgsIntern.heap s o1 = Some dflt.
+Proof. exact RArgsInternProofs.interned_default_same_value. Qed.
+Print Assumptions C16_interned_default_requests_get_equal_values.
+
+(** ... but not necessarily the same object (identity is not part of the property): two
+    first requests may each build their own, the later publication replaces the earlier *)
+Theorem C16_interned_default_identity_may_differ :
+  exists sched,
+    let s := RArgsIntern.run tt RArgsIntern.code_proto sched in
+    RArgsIntern.result_of s 0 = Some 0 /\ RArgsIntern.result_of s 1 = Some 1 /\
+    RArgsIntern.result_of s 2 = Some 0 /\ RArgsIntern.interned s = Some 0 /\
+    RArgsIntern.heap s 0 = Some tt /\ RArgsIntern.heap s 1 = Some tt.
+Proof. exact RArgsInternProofs.interned_default_identity_may_differ. Qed.
+Print Assumptions C16_interned_default_identity_may_differ.
+
+(** publication last keeps the object in [_interned] complete whatever the test is *)
+Theorem C16_interned_default_published_object_complete :
+  forall (D : Type) (dflt : D) P sched,
+    RArgsIntern.p_pub P = RArgsIntern.PubLast ->
+    RArgsIntern.published_complete dflt (RArgsIntern.run dflt P sched).
+Proof. exact RArgsInternProofs.published_complete_always. Qed.
+Print Assumptions C16_interned_default_published_object_complete.
+
+(** the excluded order, publish before build: a request served while the first one is
+    still building gets an object that holds nothing *)
+Theorem C16_interned_default_publish_before_build_refuted :
+  forall c, exists sched t o,
+    let s := RArgsIntern.run tt {| RArgsIntern.p_chk := c; RArgsIntern.p_pub := RArgsIntern.PubFirst |} sched in
+    RArgsIntern.result_of s t = Some o /\ RArgsIntern.interned s = Some o /\
+    RArgsIntern.heap s o = None.
+Proof. exact RArgsInternProofs.publish_before_build_refuted. Qed.
+Print Assumptions C16_interned_default_publish_before_build_refuted.
+
+(** the excluded test "the class is in [_interned]" (upstream before
+    pending_fixes/C16_interned_default_init_race.diff): a request whose [__new__] ran before
+    and whose [__init__] ran after another thread's publication returns its own EMPTY object *)
+Theorem C16_interned_default_presence_test_refuted :
+  exists sched t o,
+    let s := RArgsIntern.run tt {| RArgsIntern.p_chk := RArgsIntern.ChkPresent;
+                                    RArgsIntern.p_pub := RArgsIntern.PubLast |} sched in
+    RArgsIntern.result_of s t = Some o /\ RArgsIntern.heap s o = None /\
+    exists o', RArgsIntern.interned s = Some o' /\ o' <> o /\ RArgsIntern.heap s o' = Some tt.
+Proof. exact RArgsInternProofs.presence_test_refuted. Qed.
+Print Assumptions C16_interned_default_presence_test_refuted.
